@@ -27,7 +27,7 @@ def main():
         else:
             r = run_demo(); out["demo_with_patch"] = r.returncode; out["demo_output"] = (r.stdout + r.stderr)[-300:]
             b = sh("/venv/bin/python %s/tools/baseline_off.py --repo %s" % (HERE, wt)); out["baseline_survives"] = b.returncode == 0; out["baseline"] = b.stdout.strip()[-300:]
-            env = dict(os.environ, CPVERIF_REPO=wt)
+            env = dict(os.environ, CPVERIF_REPO=wt, CPVERIF_OUT=os.path.join(scratch, "out"))
             out["checks"] = {}
             for prop in props:
                 t0 = time.time()
@@ -37,7 +37,6 @@ def main():
     finally:
         sh("git -C /repo worktree remove --force %s" % os.path.join(scratch, "wt"))
         shutil.rmtree(scratch, ignore_errors=True)
-        sh("rm -rf %s/replays" % HERE)
     print(json.dumps(out, indent=1))
 
 if __name__ == "__main__":
